@@ -349,7 +349,9 @@ CLAIMS["C18"] = dict(
     text="Theorems C18_send_std/_alloc, C18_sync_std/_alloc (FcProps/C18.lean) over an environment GENERATED from /repo's "
          "macro-expanded source on every run (translator tools/extract_types.py + gen_autotraits.py, 260 struct/enum "
          "declarations per build incl. all 12 tuple arities of every combinator, array/Vec types, groups and keyed views, "
-         "waker containers, consumer and work-future types): for every declaration and EVERY assignment of auto traits to "
+         "waker containers, consumer and work-future types): for every declaration the crate hands out (the 127 per build with "
+         "an impl of Future / Stream / ConcurrentStream / Consumer / Into..., found by the translator and guarded by a list "
+         "of expected names; helper types are covered as fields of those) and EVERY assignment of auto traits to "
          "the neutral types it depends on (type parameters and their associated outputs), if all of those are Send the "
          "declaration is Send, and if all are Sync it is Sync - by a model of rustc's structural auto-trait derivation "
          "(monotone in the assignment; the table is checked by kernel evaluation and lifted by the monotonicity lemma). "
